@@ -245,6 +245,41 @@ fn make_event(m: &sim::Model, inv: &crate::maps::Inv, rng: &mut Rng, kind: u64, 
             }
             "PWB message with the end-of-message flag on an intermediate chunk too"
         }
+        19 => {
+            // the channels of one (board, chip) message split over TWO complete messages (each with chunk ids 0..n-1 and
+            // its own end-of-message flag) under the same label: their chunks interleave under permutation
+            let mut done = false;
+            let mut groups: Vec<(String, u8)> = banks.iter().filter(|b| b.0.starts_with("PC")).map(|b| (b.0.clone(), b.1[10])).collect();
+            groups.sort();
+            groups.dedup();
+            for (nm, chip) in groups {
+                let mut cs: Vec<alpha_g_detector::padwing::Chunk> = banks.iter().filter(|b| b.0 == nm && b.1[10] == chip).map(|b| super::must_chunk(&b.1)).collect();
+                cs.sort_by_key(|c| c.chunk_id());
+                let payload: Vec<u8> = cs.iter().flat_map(|c| c.payload().to_vec()).collect();
+                let Some(p) = crate::refs::pwb_ref(&payload) else { continue };
+                if p.channels.len() < 4 {
+                    continue;
+                }
+                let dev = cs[0].board_id().device_id();
+                banks.retain(|b| !(b.0 == nm && b.1[10] == chip));
+                let half = p.channels.len() / 2;
+                for part in 0..2 {
+                    let mut q = p.clone();
+                    q.channels = if part == 0 { p.channels[..half].to_vec() } else { p.channels[half..].to_vec() };
+                    q.sent_mask = q.channels.iter().fold(0u128, |m, c| m | 1u128 << (c.0 - 1));
+                    let size = if part == 0 { 700 } else { 1100 };
+                    for c in q.chunks(dev, chip, size) {
+                        banks.push((nm.clone(), c.encode()));
+                    }
+                }
+                done = true;
+                break;
+            }
+            if !done {
+                banks.retain(|b| b.0 != "ATAT");
+            }
+            "two complete PWB messages under one (board, chip) label"
+        }
         17 => {
             // as 16, but the second message is short: every waveform ends before the run's delay, so it leaves no signal
             let mut done = false;
@@ -289,7 +324,7 @@ fn make_event(m: &sim::Model, inv: &crate::maps::Inv, rng: &mut Rng, kind: u64, 
 fn run(ctx: &mut Ctx) {
     let m = sim::Model::load(&repo_root());
     let inv = crate::maps::inverse(u32::MAX);
-    let n_events = ctx.tier.pick(32, 120);
+    let n_events = ctx.tier.pick(33, 120);
     let shard = ctx.shard as u64;
     // NOTE: every shard processes *all* events (the comparison across processes is the point);
     // only the permutations differ between shards.
@@ -303,9 +338,9 @@ fn run(ctx: &mut Ctx) {
         }
         ctx.cur_case = i;
         let mut rng = ctx.rng_for("events", i);
-        // the 19 kinds once each, then valid events only (odd ones with per-packet metadata, the spread of the PWB trigger
+        // the 20 kinds once each, then valid events only (odd ones with per-packet metadata, the spread of the PWB trigger
         // timestamps cycling through 8, 0, 4, 1, 9, 1000, 5, unrelated)
-        let (banks, what) = make_event(&m, &inv, &mut rng, if i < 19 { i } else { 0 }, i);
+        let (banks, what) = make_event(&m, &inv, &mut rng, if i < 20 { i } else { 0 }, i);
         let groups = {
             let mut g: Vec<&str> = banks.iter().filter(|b| b.0.starts_with("PC")).map(|b| &b.0[..]).collect();
             g.sort();
